@@ -380,4 +380,79 @@ def neighborsApi (g : Graph) (etype : Option Nat) (dir : Dir) (flt : Flt) (n : N
   if !g.hasNode n then none
   else some (((neighborsRawF g etype dir flt n).eraseDups).filter (fun v => g.hasNode v && flt.nodeOk v))
 
+/-! ### astar_path under `AStarConfig { edge_type, weight_property: None }` -/
+
+/-- the graph `astar_path` searches under a config: `neighbors(.., edge_type, ..)` and
+    `get_astar_edge_weight(.., edge_type, ..)` both skip edges of another type, and without a
+    `weight_property` every edge weighs `default_weight = 1` -/
+def astarView (g : Graph) (etype : Option Nat) (weighted : Bool) : Graph :=
+  { g with edges := (g.edges.filter (typeOk etype)).map (fun e => if weighted then e else { e with weight := none }) }
+
+/-- `astar_path(from, to, AStarConfig::new().edge_type(t)?.weight_property(w)?.direction(dir))` -/
+def astarCostCfg (g : Graph) (etype : Option Nat) (weighted : Bool) (dir : Dir) (src tgt : Nat) : Option Int :=
+  astarCost (astarView g etype weighted) dir src tgt
+
+/-! ### strongly_connected_components (recursive Tarjan, algorithms/scc.rs) -/
+
+/-- `TarjanState`; `on_stack[w]` is true exactly while `w` is in `stack` (set at the push, cleared at
+    the pop), so the model tests membership in `stack` -/
+structure TjSt where
+  index : Nat
+  indices : NatMap
+  low : NatMap
+  stack : List Nat              -- top first
+  comps : List (List Nat)       -- newest first
+deriving Repr, Inhabited
+
+/-- the `loop { w = stack.pop(); component.push(w); if w == v { break } }` of a root:
+    (component in pop order, remaining stack) -/
+def tjPop (v : Nat) : List Nat → List Nat → List Nat × List Nat
+  | [], comp => (comp.reverse, [])
+  | w :: rest, comp => if w == v then ((w :: comp).reverse, rest) else tjPop v rest (w :: comp)
+
+mutual
+/-- `tarjan_strongconnect(v)`; the fuel bounds the recursion depth (a DFS path has no repeated node) -/
+def tjVisit (g : Graph) (etype : Option Nat) : Nat → Nat → TjSt → TjSt
+  | 0, _, st => st
+  | fuel + 1, v, st =>
+    let st1 : TjSt := { st with indices := (v, st.index) :: st.indices, low := (v, st.index) :: st.low,
+                                index := st.index + 1, stack := v :: st.stack }
+    let st2 := tjNbrs g etype fuel v (nbrSet g etype .out v) st1
+    if nmGet st2.low v == nmGet st2.indices v then
+      let r := tjPop v st2.stack []
+      { st2 with stack := r.2, comps := r.1 :: st2.comps }
+    else st2
+termination_by fuel _ _ => (fuel, 0)
+/-- `for neighbor in neighbors(v, edge_type, Outgoing)` -/
+def tjNbrs (g : Graph) (etype : Option Nat) : Nat → Nat → List Nat → TjSt → TjSt
+  | _, _, [], st => st
+  | fuel, v, w :: ws, st =>
+    match nmGet st.indices w with
+    | none =>
+      let st' := tjVisit g etype fuel w st
+      let lowV := (nmGet st'.low v).getD 0
+      let lowW := (nmGet st'.low w).getD 0
+      tjNbrs g etype fuel v ws { st' with low := (v, min lowV lowW) :: st'.low }
+    | some idxW =>
+      if st.stack.contains w then
+        let lowV := (nmGet st.low v).getD 0
+        tjNbrs g etype fuel v ws { st with low := (v, min lowV idxW) :: st.low }
+      else tjNbrs g etype fuel v ws st
+termination_by fuel _ ws _ => (fuel, ws.length + 1)
+end
+
+/-- `for &node in &nodes { if !indices.contains_key(node) { strongconnect(node) } }` -/
+def tjAll (g : Graph) (etype : Option Nat) (fuel : Nat) : List Nat → TjSt → TjSt
+  | [], st => st
+  | n :: ns, st =>
+    match nmGet st.indices n with
+    | none => tjAll g etype fuel ns (tjVisit g etype fuel n st)
+    | some _ => tjAll g etype fuel ns st
+
+/-- `strongly_connected_components(config).members`, oldest component first.  Successors are
+    `neighbors(v, edge_type, Outgoing)`: along directed edges, either way over undirected ones. -/
+def sccComponents (g : Graph) (etype : Option Nat) : List (List Nat) :=
+  (tjAll g etype (g.nodes.length + 1) (g.nodes.map (·.id))
+    { index := 0, indices := [], low := [], stack := [], comps := [] }).comps.reverse
+
 end Neumann.Paths
